@@ -212,10 +212,22 @@ func (w *c15World) render() (map[string]string, map[string][]string) {
 		lines[f] = append(lines[f], l, "")
 	}
 	m := lines["main.lua"]
+	paired := false
 	for vi, v := range w.vars {
+		if paired {
+			paired = false
+			continue
+		}
 		if vi%2 == 0 {
 			// a statement with a trailing comment directly above the annotation
 			m = append(m, fmt.Sprintf("local cnt%d = %d -- counter %d", vi, vi, vi))
+		}
+		if vi%3 == 1 && vi+1 < len(w.vars) && v.extra == "" && w.vars[vi+1].extra == "" && !strings.Contains(v.typ+w.vars[vi+1].typ, ",") {
+			// one annotation line typing two variables of one declaration: the i-th type is the i-th variable's
+			n := w.vars[vi+1]
+			m = append(m, "---@type "+v.typ+", "+n.typ, "local "+v.name+", "+n.name+" = {}, {}", "")
+			paired = true
+			continue
 		}
 		m = append(m, "---@type "+v.typ, "local "+v.name+" = {}")
 		if v.extra != "" {
